@@ -227,13 +227,31 @@ def getValidFieldNameAndAlias (E : Env) (k : Kind) (cfg : Cfg) (name : List Char
     (getValidName E k cfg name excl false false).map fun v =>
       (v, if cfg.noAlias || name == v then none else some name)
 
-/-- the loop of `parse_object_fields`: (field name, alias) per property, excludes accumulate -/
-def foldFields (E : Env) (k : Kind) (cfg : Cfg) :
-    List (List Char) → List (List Char) → Res (List (List Char × Option (List Char)))
-  | [], _ => .ok []
-  | n :: ns, excl =>
+/-- one emitted member: ((field name, alias), typed `Any` because the property's schema is `true`/`false`) -/
+abbrev FieldOut := (List Char × Option (List Char)) × Bool
+
+/-- (instance search gives up on this nesting depth by itself) -/
+instance instDecEqFoldOut : DecidableEq (List FieldOut × List (List Char)) :=
+  fun a b => instDecidableEqProd a b
+
+/-- The loop of `parse_object_fields` over (property name, is-boolean-schema). Per property:
+`get_valid_field_name_and_alias(name, exclude_field_names)`, then `exclude_field_names.add(field_name)`,
+and only THEN the branch `if isinstance(field, bool): fields.append(<Any member>); continue` — the name of
+a boolean-schema property is reserved for the rest of the class exactly like any other.
+Returns the members and the final `exclude_field_names`. -/
+def foldProps (E : Env) (k : Kind) (cfg : Cfg) :
+    List (List Char × Bool) → List (List Char) → Res (List FieldOut × List (List Char))
+  | [], excl => .ok ([], excl)
+  | (n, isBool) :: ps, excl =>
     match getValidFieldNameAndAlias E k cfg n excl with
-    | .ok (f, a) => (foldFields E k cfg ns (f :: excl)).map ((f, a) :: ·)
+    | .ok fa =>
+      let excl' := fa.1 :: excl
+      if isBool then
+        -- boolean schema: member typed Any, `continue`
+        (foldProps E k cfg ps excl').map fun r => ((fa, true) :: r.1, r.2)
+      else
+        -- ordinary schema: `parse_item` (outside this model), member of that type
+        (foldProps E k cfg ps excl').map fun r => ((fa, false) :: r.1, r.2)
     | .outOfFuel => .outOfFuel
     | .error => .error
 
